@@ -986,3 +986,51 @@ Proof.
   unfold subset_events. f_equal. f_equal. f_equal.
   apply filter_ext. intros t. apply K_subset_keep.
 Qed.
+
+(* ------------------------------------------------------------------ *)
+(* draw_ontimes with optional window bounds                              *)
+
+Lemma K_draw_has_window a b :
+  draw_has_window a b = match a, b with None, None => false | _, _ => true end.
+Proof. destruct a, b; reflexivity. Qed.
+Lemma K_draw_tmin_missing a : draw_tmin_missing a = match a with None => true | Some _ => false end.
+Proof. reflexivity. Qed.
+Lemma K_draw_tmax_missing b : draw_tmax_missing b = match b with None => true | Some _ => false end.
+Proof. reflexivity. Qed.
+
+(* the bound the code uses for a given optional argument *)
+Definition eff_min (ivs : intervals) (a : option Z) : Z :=
+  match a with Some v => v | None => match ivs with (l, _) :: _ => l | [] => 0 end end.
+Definition eff_max (ivs : intervals) (b : option Z) : Z :=
+  match b with Some v => v | None => last (map snd ivs) 0 end.
+
+Lemma draw_opt_eq ivs a b w :
+  ivs <> [] ->
+  draw_opt ivs a b w =
+    match a, b with
+    | None, None => draw ivs None w
+    | _, _ => draw ivs (Some (eff_min ivs a, eff_max ivs b)) w
+    end.
+Proof.
+  intros Hne. unfold draw_opt. rewrite K_draw_has_window, K_draw_tmin_missing, K_draw_tmax_missing.
+  destruct ivs as [|[l u] rest]; [congruence|].
+  destruct a as [a|], b as [b|]; cbn [bind time_start time_stop eff_min eff_max draw]; reflexivity.
+Qed.
+
+Theorem draw_opt_spec ivs a b w :
+  wf ivs -> ivs <> [] ->
+  match a, b with
+  | None, None => 0 <= w < livetime ivs ->
+      exists x, draw_opt ivs None None w = Ok x /\ In_on ivs x
+  | _, _ =>
+      eff_min ivs a <= eff_max ivs b ->
+      0 <= w < measure (clip ivs (eff_min ivs a) (eff_max ivs b)) ->
+      exists x, draw_opt ivs a b w = Ok x /\ In_on ivs x
+                /\ eff_min ivs a <= x < eff_max ivs b
+  end.
+Proof.
+  intros Hwf Hne.
+  pose proof (draw_opt_eq ivs a b w Hne) as E.
+  destruct a as [a|], b as [b|]; rewrite E;
+    first [ exact (draw_spec ivs (Some (_, _)) w Hwf) | exact (draw_spec ivs None w Hwf) ].
+Qed.
